@@ -116,6 +116,13 @@ def extra(rng, tier):
                  lambda v: v, f"x axis x {cx}, y axis x {cy}")
             push(base, mk([x + d for x in xs], [y - d for y in ys], flat, [q + d for q in qx], [q - d for q in qy]),
                  lambda v: v, f"axes shifted by {d}, {-d}")
+            if S == "F":
+                # extreme units on data and axes at once (seed C15-r5m2: `(y2-y1)*(x-x1)` formed before the division leaves the
+                # number range although every quantity of the problem and the result stay far inside it)
+                sg = rng.choice([1, -1])
+                c2, cx2, cy2 = (2.0 ** (sg * rng.randint(520, 900)) for _ in range(3))
+                push(base, mk([x * cx2 for x in xs], [y * cy2 for y in ys], [v * c2 for v in flat], [q * cx2 for q in qx], [q * cy2 for q in qy]),
+                     lambda v, c2=c2: v * c2, f"data x {c2}, x axis x {cx2}, y axis x {cy2}")
             b2 = mk(xs, ys, flat2, qx, qy)
             s = mk(xs, ys, [a + b for a, b in zip(flat, flat2)], qx, qy)
             lines += [base, b2, s]
@@ -180,6 +187,11 @@ def extra(rng, tier):
         push(base, mk([x * cx for x in xs], flat, [q * cx for q in qs], scale_bc(bc, one / cx, one / (cx * cx)) if bc else None),
              lambda v: v, f"axis and queries x {cx}")
         push(base, mk([x + d for x in xs], flat, [q + d for q in qs], bc), lambda v: v, f"axis and queries shifted by {d}")
+        if S == "F" and kind == "lin":
+            sg = rng.choice([1, -1])
+            c2, cx2 = (2.0 ** (sg * rng.randint(520, 900)) for _ in range(2))
+            push(base, mk([x * cx2 for x in xs], [v * c2 for v in flat], [q * cx2 for q in qs], None),
+                 lambda v, c2=c2: v * c2, f"data x {c2}, axis and queries x {cx2}")
         # superposition (needs numeric boundary values on both: use the same kind with values added)
         if kind == "lin" or isinstance(bc, str):
             b2 = mk(xs, flat2, qs, bc)
